@@ -20,8 +20,8 @@ def run(rep, tier):
     xh.fold(rep, MOD, [r for r in res if r.target.startswith(MOD)])
     rep.coverage.update({
         "evaluations": len(res), "distinct_nontrivial": len(res) - 1, "exhaustive": all(r.status in ("confirmed", "counterexample") for r in res),
-        "rule": f"{len(H.ORDERS)} ordered plugin selections (all ordered selections of <=3 of the 5 plugins {{ShorterResults, ExtractOperations, ClientForwardRefs, NoReimports, identity}} plus all five in both orders) x sync/async, each generated in a fresh interpreter from a package with 9 operations (single/many top-level fields, union, fragment, list, custom scalar, scalar result, mutation with arguments, subscription); oracle: package imports; result/enum/input/fragment modules byte-identical; every method sends the same (parsed) query, operationName and variables and returns the same validated value, except ShorterResults = exactly the single top-level field; NoReimports only empties __init__; identity plugin changes no byte; two marker plugins are applied in configuration order",
-        "bounds": {"ordered_selections": len(H.ORDERS), "operations": 9},
+        "rule": f"{len(H.ORDERS)} ordered plugin selections (all ordered selections of <=3 of the 5 plugins {{ShorterResults, ExtractOperations, ClientForwardRefs, NoReimports, identity}} plus all five in both orders) x sync/async, each generated in a fresh interpreter from a package with 12 operations (incl. root-level nested fragments) (single/many top-level fields, union, fragment, list, custom scalar, scalar result, mutation with arguments, subscription); oracle: package imports; result/enum/input/fragment modules byte-identical; every method sends the same (parsed) query, operationName and variables and returns the same validated value, except ShorterResults = exactly the single top-level field; NoReimports only empties __init__; identity plugin changes no byte; two marker plugins are applied in configuration order",
+        "bounds": {"ordered_selections": len(H.ORDERS), "operations": 12},
         "results": [{"target": r.target.rsplit('.', 1)[-1], "status": r.status, "wall_s": round(r.wall, 1)} for r in res],
     })
     rep.sample({"plugins": ["ShorterResults", "ExtractOperations", "ClientForwardRefs", "NoReimports", "identity"], "operation": "One", "expected_return": "One.model_validate(data).user"})
